@@ -1,6 +1,7 @@
 // C05 driver: frozen corpus.
 //   drv_c05 freeze <dir> <seed> <n>     (run ONCE, by hand, to create /verif/corpus; never part of a check)
 //   drv_c05 freeze-big <dir> <seed>     (run ONCE, by hand, to create /verif/corpus_big: size-covering streams, see run_freeze_big)
+//   drv_c05 freeze-bounds <dir> <seed>  (run ONCE, by hand: streams on the representation boundaries, appended to /verif/corpus_big)
 //   drv_c05 check  <dir> <testdata>     decode every frozen stream and every testdata/*.drc; one "Frozen" record per stream
 //   drv_c05 versions <dir>              rewrite the header version of a subset of streams to every (major, minor) in 0..3 x 0..5
 #include <dirent.h>
@@ -125,6 +126,49 @@ static int run_freeze_big(const std::string &dir, uint64_t seed) {
   return 0;
 }
 
+
+// Boundary streams: every size at which the format switches representation -- index widths of the sequential mesh coder (256, 65536 points;
+// stored directly and compressed), the same point counts through Edgebreaker and both point-cloud coders, face counts around 1000 (valence
+// coder selection).  A change applied to encoder and decoder alike is invisible to round trips; frozen bytes at the boundary pin it.
+static int run_freeze_bounds(const std::string &dir, uint64_t seed) {
+  vrt::Rng r(seed);
+  std::ofstream idx(dir + "/index.ndjson", std::ios::app);
+  long k = 0;
+  auto emit = [&](const Geom &g, const Opt &o, const std::string &what) {
+    Encoded e = encode(g, o);
+    if (!e.ok) { fprintf(stderr, "skip %s: %s\n", what.c_str(), e.err.c_str()); return; }
+    Decoded d = decode(e.bytes.data(), e.bytes.size());
+    if (!d.ok) { fprintf(stderr, "skip %s: does not decode (%s)\n", what.c_str(), d.err.c_str()); return; }
+    char name[64]; snprintf(name, sizeof name, "n%04ld.drc", k++);
+    std::ofstream f(dir + "/" + name, std::ios::binary); f.write(e.bytes.data(), e.bytes.size());
+    idx << "{\"file\":\"" << name << "\",\"digest\":" << h64(geom_digest(*d.pc, d.is_mesh)) << ",\"np\":" << d.pc->num_points() << ",\"nf\":" << (d.is_mesh ? d.mesh()->num_faces() : 0)
+        << ",\"gt\":\"" << (g.is_mesh ? "mesh" : "pc") << "\",\"method\":" << (int)(unsigned char)e.bytes[8] << ",\"es\":" << o.es << ",\"pred\":" << o.pred << ",\"builtin\":" << (o.builtin ? "true" : "false")
+        << ",\"what\":\"" << what << "\",\"bytes\":" << e.bytes.size() << "}\n";
+  };
+  for (int np : {255, 256, 257, 65535, 65536, 65537}) {
+    for (int variant = 0; variant < 5; ++variant) {
+      // a strip mesh over np distinct int16 / int32 positions: every point used, the last face names the highest index
+      const bool mesh = variant < 4;
+      Geom g; g.is_mesh = mesh; g.pc.reset(mesh ? new Mesh() : new PointCloud()); g.pc->set_num_points(np);
+      AttDesc d{GeometryAttribute::POSITION, DT_INT32, 3, false, true, np};
+      const int id = add_attribute(g.pc.get(), d, np);
+      for (int v = 0; v < np; ++v) { int32_t x[3] = {v % 301, (v / 301) % 301, (int32_t)r.below(7) + 5 * (v / 90601)}; g.pc->attribute(id)->SetAttributeValue(AttributeValueIndex(v), x); }
+      if (mesh) for (int f = 0; f + 2 < np; f += (np > 1000 ? 7 : 1)) { Mesh::Face fc; fc[0] = PointIndex(f); fc[1] = PointIndex(f + 1); fc[2] = PointIndex(f + 2); g.mesh()->AddFace(fc); }
+      if (mesh) { Mesh::Face fc; fc[0] = PointIndex(np - 1); fc[1] = PointIndex(0); fc[2] = PointIndex(np / 2); g.mesh()->AddFace(fc); }
+      Opt o; o.expert = true; o.qbits.assign(1, 0);
+      // 0: sequential, indices stored directly (speed 10)   1: sequential, compressed indices   2: Edgebreaker standard   3: Edgebreaker valence   4: clouds, both coders by parity
+      o.method = variant <= 1 ? 0 : 1;
+      if (!mesh) o.method = (np % 2);
+      o.es = o.ds = variant == 0 ? 10 : (variant == 1 ? 3 : 5);
+      if (variant == 2) o.submethod = 0;
+      if (variant == 3) o.submethod = 2;
+      emit(g, o, "bound np=" + std::to_string(np) + " variant=" + std::to_string(variant));
+    }
+  }
+  fprintf(stderr, "froze %ld boundary streams\n", k);
+  return 0;
+}
+
 static void check_one(const std::string &label, const std::vector<char> &bytes, const vrt::J *frozen) {
   Decoded d = decode(bytes.data(), bytes.size());
   const uint64_t h = d.ok ? geom_digest(*d.pc, d.is_mesh) : 0;
@@ -176,6 +220,7 @@ static int run_versions(const std::string &dir) {
 int main(int argc, char **argv) {
   if (argc >= 5 && !strcmp(argv[1], "freeze")) return run_freeze(argv[2], strtoull(argv[3], 0, 10), atol(argv[4]), argc >= 6 ? argv[5] : "g", argc >= 7 ? atoi(argv[6]) : -1);
   if (argc >= 4 && !strcmp(argv[1], "freeze-big")) return run_freeze_big(argv[2], strtoull(argv[3], 0, 10));
+  if (argc >= 4 && !strcmp(argv[1], "freeze-bounds")) return run_freeze_bounds(argv[2], strtoull(argv[3], 0, 10));
   if (argc >= 3 && !strcmp(argv[1], "check")) return run_check(argv[2]);
   if (argc >= 3 && !strcmp(argv[1], "digest")) { check_one(argv[2], slurp(argv[2]), nullptr); return 0; }
   if (argc >= 3 && !strcmp(argv[1], "versions")) return run_versions(argv[2]);
